@@ -793,11 +793,11 @@ func genRvole(thorough bool, n *int) []desc {
 		*n++
 		ds = append(ds, newDesc(kind, append(kvs, "n", strconv.Itoa(*n))...))
 	}
-	// bbot: every run is a full ecbbot batch; few cases, one alteration each
-	add("rvb", "curve", "k256", "l", "2", "a", "mixed", "beta", "rand", "tamper", "M")
-	add("rvb", "curve", "k256", "l", "1", "a", "rand", "beta", "zero", "tamper", "E:rand")
-	add("rvb", "curve", "p256", "l", "1", "a", "qm1", "beta", "rand", "tamper", "Ain")
+	// bbot: every run is a full ecbbot batch (xi = kappa+160 instances of l+rho OTs); few cases, one alteration each
+	add("rvb", "curve", "k256", "l", "1", "a", "qm1", "beta", "rand", "tamper", "M")
+	add("rvb", "curve", "p256", "l", "1", "a", "rand", "beta", "zero", "tamper", "E:rand")
 	if thorough {
+		add("rvb", "curve", "k256", "l", "2", "a", "mixed", "beta", "rand", "tamper", "Ain")
 		for _, c := range []string{"k256", "p256"} {
 			for _, as := range []string{"zero", "one", "qm1", "rand"} {
 				add("rvb", "curve", c, "l", "3", "a", as, "beta", "rand", "tamper", "E;Acheck:rand;M")
@@ -806,13 +806,16 @@ func genRvole(thorough bool, n *int) []desc {
 		}
 	}
 	// softspoken variant: cheap runs, many inputs and alterations
-	reps := 2
+	reps := 1
 	if thorough {
 		reps = 40
 	}
-	for _, c := range []string{"k256", "p256"} {
-		for _, as := range []string{"zero", "one", "qm1", "mixed", "rand"} {
-			for _, l := range []string{"1", "2", "3"} {
+	for ci, c := range []string{"k256", "p256"} {
+		for ai, as := range []string{"zero", "one", "qm1", "mixed", "rand"} {
+			for li, l := range []string{"1", "2", "3"} {
+				if !thorough && (ai+li+ci)%2 == 1 {
+					continue
+				}
 				add("rvs", "curve", c, "l", l, "a", as, "beta", "rand", "tamper", "M;E;Ain:rand")
 			}
 		}
